@@ -56,6 +56,7 @@ type frame struct {
 	recovered bool
 	results   Value
 	info      *fnInfo
+	loopIters map[*ssa.BasicBlock]int // iterations of each loop header in THIS activation (unwinding bound)
 }
 
 type Exec struct {
@@ -681,8 +682,14 @@ func (x *Exec) run(fr *frame, blk, prev, stop *ssa.BasicBlock, phisSet bool) run
 				cs.active = false
 				cs.arrivals++
 			}
+			// the unwinding bound is per activation of the function (a concrete helper called many times is not an
+			// unbounded loop); the per-path total is kept as a second, much larger guard
 			x.loops[blk]++
-			if x.loops[blk] > x.eng.LoopLimit {
+			if fr.loopIters == nil {
+				fr.loopIters = map[*ssa.BasicBlock]int{}
+			}
+			fr.loopIters[blk]++
+			if fr.loopIters[blk] > x.eng.LoopLimit || x.loops[blk] > 200*x.eng.LoopLimit {
 				panic(&GoPanic{Msg: fmt.Sprintf("VERIF-UNWIND: loop at %s block %d exceeds %d iterations", fr.fn, blk.Index, x.eng.LoopLimit), Stack: x.stackTrace()})
 			}
 		}
